@@ -50,8 +50,8 @@ def _hash_cls(ctx, hashes, tag):
     class H:
         def __init__(self, data=b""):
             self.data = data
-            hashes.append((tag, data))
-            self.out = ctx.bytes("H_%s%d" % (tag, len(hashes)), 4)
+            self.out = ctx.bytes("H_%s%d" % (tag, len(hashes) + 1), 4)
+            hashes.append((tag, data, self.out))
 
         def digest(self):
             return self.out
@@ -219,6 +219,94 @@ def _keys():
     return _K
 
 
+def ecdh_case(which):
+    """client side of the elliptic-curve exchanges (NIST curves / curve25519): the exchange hash covers the reply's
+    Q_S field exactly as it was received, the client's own public value as it was sent, K_S as received and K"""
+    def fn(ctx):
+        import paramiko.message as PM
+        import paramiko.util as PU
+        from paramiko.ssh_exception import SSHException
+        vc, vs = "SSH-2.0-c", "SSH-2.0-s"
+        ic, i_s = ctx.bytes("I_C", 2), ctx.bytes("I_S", 2)
+        ks = ctx.bytes("K_S", 2)
+        qs = ctx.bytes("Q_S-as-received", 3)
+        sig_ok = ctx.flag("signature-verifies")
+        hashes = []
+        OWN = b"\x04ow"                 # the client's own public value, in the canonical encoding
+        KBYTES = b"\x01\x7f"            # the shared secret the library computes
+
+        class Pub:
+            """a parsed peer point: re-serialising it gives the CANONICAL encoding, not necessarily the bytes received"""
+            def __init__(self, data=None):
+                self.data = data
+
+            def public_bytes(self, *a, **k):
+                return OWN if self.data is None else b"\x04" + b"cn"
+
+        class Priv:
+            def public_key(self):
+                return Pub()
+
+            def exchange(self, *a):
+                return KBYTES
+
+            @staticmethod
+            def generate():
+                return Priv()
+        env = std_patches(PM, PU, builtins=("int",))
+        with ctx.patches(env):
+            c = _side(ctx, False, hashes, vc, vs, ic, i_s)
+            verified = []
+
+            def verify(hk, sg):
+                c.events.append("verify")
+                verified.append((hk, sg, c.H))
+                if not sig_ok:
+                    raise SSHException("Signature verification failed")
+            c._verify_key = verify
+            if which == "nistp256":
+                import paramiko.kex_ecdh_nist as KE
+                EC = type("EC", (), {"EllipticCurvePublicKey": type("PK", (), {"from_encoded_point": staticmethod(lambda curve, d: Pub(d))}),
+                                     "ECDH": staticmethod(lambda: None), "generate_private_key": staticmethod(lambda curve, be: Priv()),
+                                     "SECP256R1": KE.ec.SECP256R1})
+                patches = [(KE, "ec", EC)]
+                eng_cls = KE.KexNistp256
+            else:
+                import paramiko.kex_curve25519 as KE
+                patches = [(KE, "X25519PrivateKey", Priv), (KE, "X25519PublicKey", type("PK", (), {"from_public_bytes": staticmethod(lambda d: Pub(d))}))]
+                eng_cls = KE.KexCurve25519
+            with patched(patches):
+                ce = eng_cls(c)
+                ce.hash_algo = _hash_cls(ctx, hashes, "client")
+                if which == "nistp256":
+                    ce.P, ce.Q_C = Priv(), Pub()
+                else:
+                    ce.key = Priv()
+                ok = True
+                try:
+                    ce._parse_kexecdh_reply(_M(ks, qs, b"sig"))
+                except SSHException:
+                    ok = False
+            ctx.prove(len(hashes) == 1, "one-exchange-hash")
+            got = _decode(ctx, hashes[0][1], "sssssssm")
+            K = int.from_bytes(KBYTES, "big")
+            want = [vc.encode(), vs.encode(), ic, i_s, ks, OWN, qs]
+            for i, (g, w) in enumerate(zip(got, want)):
+                ctx.prove(P.beq(g, w), "hash-input-field-%d==%s" % (i, ["V_C", "V_S", "I_C", "I_S", "K_S-as-received", "Q_C-as-sent",
+                                                                        "Q_S-as-received"][i]))
+            ctx.prove(lift(got[7]) == K, "hash-input-ends-with-the-shared-secret")
+            ctx.prove(len(got[8]) == 0, "nothing-else-is-hashed")
+            ctx.prove(len(verified) == 1 and P.beq(verified[0][0], ks) and verified[0][1] == b"sig" and P.beq(verified[0][2], hashes[0][2]),
+                      "signature-checked-once-under-the-received-host-key-over-this-exchange-hash")
+            ctx.prove(ok == sig_ok, "exchange-aborts-exactly-when-the-signature-is-refused")
+            ctx.prove(("activate" in c.events) == sig_ok and (not sig_ok or c.events.index("verify") < c.events.index("activate")),
+                      "keys-activated-only-after-verification")
+    return Case("ecdh-client-%s" % which, fn, ["hash-input-field-6==Q_S-as-received", "hash-input-field-5==Q_C-as-sent",
+                                               "signature-checked-once-under-the-received-host-key-over-this-exchange-hash",
+                                               "keys-activated-only-after-verification"],
+                {"engine": which, "Q_S as received": "3 symbolic bytes (any encoding form)", "K_S, I_C, I_S": "2 symbolic bytes each"})
+
+
 def cases(tier):
     b = 17 if tier == "quick" else 40
-    return [dh_case("group", b), dh_case("gex", b), session_id_case(), verify_key_case()]
+    return [dh_case("group", b), dh_case("gex", b), session_id_case(), verify_key_case(), ecdh_case("nistp256"), ecdh_case("curve25519")]
